@@ -56,4 +56,28 @@ theorem extract_space (t : Text) : extract (' ' :: t) = extract t := by
 
 theorem stops_space (t : Text) : Stops (' ' :: t) := Or.inr ⟨' ', t, rfl, by decide⟩
 
+/-- text written for a state -/
+theorem writeState_good (a : Xo) :
+    writeState goodItems a =
+      some (writeU64 a.s0 ++ ' ' :: (writeU64 a.s1 ++ ' ' :: (writeU64 a.s2 ++ ' ' :: (writeU64 a.s3 ++ [])))) := by
+  simp [writeState, goodItems, Xo.get]
+
+/-- Round trip for the proved format: whatever the receiving engine `b` held, after reading the text
+    written for `a` the stream is still good and the engine equals `a`. -/
+theorem roundtrip_good (a b : Xo) : saveRestore goodItems goodIdx a b = some (a, true) := by
+  unfold saveRestore
+  rw [writeState_good]
+  simp only [goodIdx, readState, Bool.false_eq_true, ↓reduceIte,
+    show (0 : Nat) < 4 by decide, show (1 : Nat) < 4 by decide, show (2 : Nat) < 4 by decide,
+    show (3 : Nat) < 4 by decide]
+  rw [extract_writeU64 _ _ (stops_space _)]
+  simp only [extract_space]
+  rw [extract_writeU64 _ _ (stops_space _)]
+  simp only [extract_space]
+  rw [extract_writeU64 _ _ (stops_space _)]
+  simp only [extract_space]
+  rw [extract_writeU64 _ _ (Or.inl rfl)]
+  simp [Xo.set]
+
+
 end Vita.C07
